@@ -202,7 +202,32 @@ class SymStr:
 
     __lt__ = __le__ = __gt__ = __ge__ = __add__ = __radd__ = __getitem__ = __iter__ = _unsup
     __contains__ = __mod__ = __mul__ = _unsup
-    lower = upper = strip = split = startswith = endswith = find = replace = join = _unsup
+    strip = split = startswith = endswith = find = replace = join = _unsup
+
+    def _case(s, to_upper):
+        """str.upper() / str.lower() for texts of single-byte codecs whose bytes are all ASCII
+        (decided by a branch: the other side is unsupported, i.e. inconclusive)"""
+        if s.lossy or s.enc not in ("iso8859-1", "iso8859-2", "cp1252", "utf-8"):
+            raise Unsupported("case mapping of a symbolic string")
+        ctx = core.Ctx.cur
+        ascii_only = z3.And([z3.ULT(bv8(b), z3.BitVecVal(0x80, 8)) for b in s.items]) if s.items else \
+            z3.BoolVal(True)
+        if not ctx.branch(ascii_only):
+            raise Unsupported("case mapping of a symbolic string with non-ASCII characters")
+        lo, hi = (0x61, 0x7A) if to_upper else (0x41, 0x5A)
+        delta = z3.BitVecVal(0x20, 8)
+        out = []
+        for b in s.items:
+            e = bv8(b)
+            m = z3.If(_rng(e, lo, hi), (e - delta) if to_upper else (e + delta), e)
+            out.append(z3.simplify(m))
+        return SymStr(out, s.enc)
+
+    def upper(s):
+        return s._case(True)
+
+    def lower(s):
+        return s._case(False)
 
     def concrete(s, model):
         raw = bytes(
